@@ -28,6 +28,7 @@ Decides:
  L final first     run_subparser hands an inner final answer (Message::ParseFailure: a subcommand's output or rendered error) on BEFORE looking
                     for its own help/version flag: `cmd --version` with a version only on the parent stays the subcommand's failure.
  M depth only grows  State.path is only ever pushed (by ParseCommand::eval).
+ R adjacent window   an adjacent command runs its subparser only on the adjacently available run / the consumed block (shared with C19).
 Does not decide: acceptance of whole subcommand lines."""
 import re
 from core import *
@@ -49,6 +50,8 @@ def run(ctx):
         ctx.guard(name_first, ctx, cfg, fs)
         ctx.guard(first_name_only, ctx, cfg, fs)
         ctx.guard(consumers.forkers, ctx, cfg, fs, 'D.depth')
+        import c19
+        ctx.guard(keep_only, ctx, lambda: c19.command_window(ctx, cfg, fs), lambda o: True, 'R.scope-restore')
         import wiring
         ctx.guard(wiring.builders, ctx, cfg, fs, 'N.name-first', r'^(command|params::<impl info::OptionParser<T>>::command|params::ParseCommand::<P>::(short|long|adjacent|help))$')
         ctx.guard(matched, ctx, cfg, fs)
